@@ -73,13 +73,18 @@ META = {
         "Pyoda.GenAgree.C14W.gen_Writer_writeOffset_eq", "Pyoda.GenAgree.C14W.gen_Writer_writeString_eq",
         "Pyoda.GenAgree.C14W.gen_checkNotNullDict_eq", "Pyoda.GenAgree.C14W.gen_Writer_writeDictionary_loop1_eq",
         "Pyoda.GenAgree.C14W.gen_Writer_writeDictionary_eq", "Pyoda.GenAgree.C14W.gen_Writer_writeTransitionNone_eq",
-        "Pyoda.GenAgree.C14W.gen_Writer_writeTransitionSome_eq",
+        "Pyoda.GenAgree.C14W.gen_Writer_writeTransitionSome_eq", "Pyoda.GenAgree.C14W.gen_YearOffset_mode_eq",
+        "Pyoda.GenAgree.C14W.gen_YearOffset_advanceDayOfWeek_eq", "Pyoda.GenAgree.C14W.gen_YearOffset_timeOfDay_eq",
+        "Pyoda.GenAgree.C14W.gen_Recurrence_name_eq", "Pyoda.GenAgree.C14W.gen_Recurrence_savings_eq",
+        "Pyoda.GenAgree.C14W.gen_Recurrence_yearOffset_eq", "Pyoda.GenAgree.C14W.gen_Recurrence_fromYear_eq",
+        "Pyoda.GenAgree.C14W.gen_Recurrence_toYear_eq", "Pyoda.GenAgree.C14W.gen_YearOffset_write_eq",
+        "Pyoda.GenAgree.C14W.gen_Recurrence_write_eq", "Pyoda.GenAgree.C14W.gen_AltMap_write_eq",
     ],
     "trusted_base": [
         "Python str <-> UTF-8 bytes is a bijection on strings without lone surrogates (the model keeps strings as their encodings)",
         "bit operations of the code (&, |, >>, <<) equal the arithmetic forms used in the model on the stated ranges (sampled by suite codec.prim)",
         "io.BytesIO read/write semantics",
-        "translator tie (tools/py2lean.py; GenAgreeC14 / GenAgreeC14W): _DateTimeZoneReader, _DateTimeZoneWriter, one next() of _TzdbStreamField._read_fields and the readers _ZoneYearOffset.read / _ZoneRecurrence.read / MapZone._read / TzdbZoneLocation._read / _FixedDateTimeZone.read / _StandardDaylightAlternatingMap._read / _PrecalculatedDateTimeZone._read (= readFixed / readAlternatingMap / readPrecalculated, the constructors' checks being the model's zoneIntervalCtor / alternatingMapCtor / precalculatedCtor) are re-translated from the source on every run as state-passing functions over the object state and proved equal to the reader state machine of Codec/Session.lean / the pure writers of Codec/Prim.lean. Assumed: stream.read(n) keeps the RawIOBase contract (PolicyOk: >= 1 byte unless at the end, <= n) and the bytes are < 256; stream.write accepts the whole buffer; Offset/Instant/Duration members are the model's (tied by GenAgreeC03); _EPOCH_FOR_MINUTES_SINCE_EPOCH = Instant.from_utc(1800,1,1,0,0) is the model's EPOCH1800 (correspondence); str.encode/bytes.decode are the identity / strict UTF-8 check on encodings; the translator's own semantics (self-test oracle of C03)",
+        "translator tie (tools/py2lean.py; GenAgreeC14 / GenAgreeC14W): _DateTimeZoneReader, _DateTimeZoneWriter, one next() of _TzdbStreamField._read_fields and the readers _ZoneYearOffset.read / _ZoneRecurrence.read / MapZone._read / TzdbZoneLocation._read / _FixedDateTimeZone.read / _StandardDaylightAlternatingMap._read / _PrecalculatedDateTimeZone._read (= readFixed / readAlternatingMap / readPrecalculated, the constructors' checks being the model's zoneIntervalCtor / alternatingMapCtor / precalculatedCtor) and the writers _ZoneYearOffset._write / _ZoneRecurrence._write / _StandardDaylightAlternatingMap._write (= writeYearOffset / writeRecurrence / writeAlternatingMap, for a day-of-week field in 0..7) are re-translated from the source on every run as state-passing functions over the object state and proved equal to the reader state machine of Codec/Session.lean / the pure writers of Codec/Prim.lean. Assumed: stream.read(n) keeps the RawIOBase contract (PolicyOk: >= 1 byte unless at the end, <= n) and the bytes are < 256; stream.write accepts the whole buffer; Offset/Instant/Duration members are the model's (tied by GenAgreeC03); _EPOCH_FOR_MINUTES_SINCE_EPOCH = Instant.from_utc(1800,1,1,0,0) is the model's EPOCH1800 (correspondence); str.encode/bytes.decode are the identity / strict UTF-8 check on encodings; the translator's own semantics (self-test oracle of C03)",
         "sessions: the caller's operations on the shared pool list (clear, slice assignment, append) and the reader's one-byte look-ahead are what PoolAct.apply / RState describe (suite codec.sessions drives one real writer and one real reader per session)",
     ],
     "partial": [
